@@ -241,10 +241,18 @@ def run_state(acc, cseed, platform, fw, nets, cmpf, Stack, SimDevice):
             dev.uihb["signature"] = b""
             dev.extra[0x60] = _hb_fail
         ud = rng.randbytes(32)
+        # the device is not found again at the first / second re-connection of the
+        # dialogue (slow re-enumeration after an application switch)
+        reconn = rng.choice([None, None, None, 1, 2, 2])
+        if reconn:
+            s.bus.enumerate_skip = reconn - 1
+            s.bus.enumerate_fail = 1
+            acc.count("uihb_with_a_failed_reconnection")
+            case = dict(case, failed_reconnection=reconn)
         reply, exc, _ = s.request({"command": "uiHeartbeat", "version": 5, "udValue": ud.hex()})
         acc.evaluations += 1
         acc.count("uihb_transitions")
-        acc.distinct.add("uihb|%s|%s" % (trans, exitb))
+        acc.distinct.add("uihb|%s|%s|%s" % (trans, exitb, reconn))
         if exc is not None or not reply or type(reply.get("errorcode")) is not int:
             acc.violation("uiHeartbeat-no-verdict", {"exc": repr(exc), "reply": reply}, case)
             return
@@ -263,7 +271,7 @@ def run_state(acc, cseed, platform, fw, nets, cmpf, Stack, SimDevice):
                 acc.violation("uiHeartbeat-ok-without-heartbeat-mode", {"trans": trans}, case)
         elif code != -905:
             acc.violation("uiHeartbeat-error-not-905", {"reply": reply}, case)
-        elif trans == "normal" and exitb != "timeout":
+        elif trans == "normal" and exitb != "timeout" and not reconn:
             acc.violation("uiHeartbeat-refused-on-normal-transition", {"reply": reply}, case)
 
 
